@@ -24,4 +24,4 @@ for d in $(ls $SRC | grep -E -e "${REF_FILTER:-.}"); do
   done
   echo "$d -> ${alarms:-quiet}"
 done
-rm -rf $T
+rm -rf $T /verif/work/scratch_var_tmp_lvc-${REF_TAG:-ref}_repo
